@@ -8,7 +8,7 @@ RULE = ("traced runs, biased in {False,True}, matrix-valued lambda, repopulation
         "repopulation event; distinct by case hash")
 ASSUMPTIONS = ["task arguments observed through a class-level Pool.apply_async shim in the parent process"]
 SHARD_TIMEOUT = {"quick": 300, "thorough": 3400}
-MIX = {"single:small": 3, "single:general": 3, "single:repop": 3, "joint:joint": 1}
+MIX = {"single:small": 3, "single:general": 3, "single:repop": 3, "joint:joint": 1, "single:hostile": 2}
 PROPS = ("C12",)
 
 
